@@ -7,7 +7,8 @@ package polyjson
 // that JSON has to escape.
 //
 // verif:bound C15 text-layer clause: one record written with polyjson.Write to an (in-memory) file and read back with polyjson.Read; a 6-byte description over the characters \ " < > & u 0 2 3 6 c e x and a 3-byte qualifier value over , ] } space a, everything else concrete
-// verif:assume C15 text layer: the engine's JSON text encoder / parser follows encoding/json's documented rules (validated byte for byte against the real package on the repository's sample.json and on generated records in the selftests); ASCII only, no floats
+// verif:bound C15 non-ASCII clause: a definition and a qualifier value made of one of 9 concrete non-ASCII characters (2-, 3- and 4-byte UTF-8, U+2028, U+FFFF, U+10000, U+1D6FC, U+10FFFF) between two symbolic ASCII bytes over \ " u d 8 space a, written with polyjson.Write and read back
+// verif:assume C15 text layer: the engine's JSON text encoder / parser follows encoding/json's documented rules (validated byte for byte against the real package on the repository's sample.json and on generated records in the selftests); symbolic bytes ASCII only (non-ASCII text concrete, valid UTF-8), no floats
 
 import (
 	"encoding/json"
@@ -49,6 +50,35 @@ func Harness_C15_TextLayer() {
 	vCover("C15 a backslash in the description", seq.Description[0] == '\\')
 }
 
+var c15Runes = []string{"\u00e9", "\u03c0", "\u4e2d", "\u2028", "\uffff", "\U00010000", "\U0001d6fc", "\U0010ffff", "\u00e9\U0001d6fc\u4e2d"}
+
+// non-ASCII text survives the file: multi-byte UTF-8 next to characters that are escaped
+func Harness_C15_NonASCII() {
+	vJSONText()
+	r := c15Runes[vChoice(len(c15Runes))]
+	var seq poly.Sequence
+	seq.Sequence = "acgt"
+	seq.Meta.Definition = vBytes(1, "\\\"ud8 a") + r + vBytes(1, "\\\"ud8 a")
+	f := poly.Feature{Type: "gene", Attributes: map[string]string{"note": r + vBytes(1, "d8c a")}, SequenceLocation: poly.Location{Start: 0, End: 2}}
+	seq.AddFeature(&f)
+	path := os.TempDir() + "/polysym-c15-utf8.json"
+	var back poly.Sequence
+	panicked := vPanics(func() {
+		Write(seq, path)
+		back = Read(path)
+		os.Remove(path)
+	})
+	vAssert(!panicked, "write-read-does-not-panic")
+	if panicked {
+		return
+	}
+	vAssert(vEqStr(back.Meta.Definition, seq.Meta.Definition), "non-ascii-definition-equal")
+	vAssert(len(back.Features) == 1, "text-feature-count-equal")
+	if len(back.Features) == 1 {
+		vAssert(vEqStr(back.Features[0].Attributes["note"], seq.Features[0].Attributes["note"]), "non-ascii-qualifier-equal")
+	}
+}
+
 func Selftest_C15_TextLayer() {
 	vJSONText()
 	b, err := ioutil.ReadFile("../../data/sample.json")
@@ -74,6 +104,15 @@ func Selftest_C15_TextLayer() {
 	vOut(string(text))
 	back := Parse(text)
 	vOut(back.Description + "|" + back.Meta.Other["a"] + back.Meta.Other["b"] + back.Meta.Other["C"])
+	var wide poly.Sequence
+	wide.Description = "\u00e9 \u03c0 \u4e2d \u2028\u2029 \U0001d6fc \U0010ffff \xff bad \xe4\xb8 cut"
+	wide.Meta.Other = map[string]string{"cl\u00e9": "\U00010000"}
+	text, _ = json.Marshal(wide)
+	vOut(string(text))
+	back = Parse(text)
+	vOut(back.Description + "|" + back.Meta.Other["cl\u00e9"])
+	esc := Parse([]byte("{\"description\": \"\\ud835\\udefc|\\ud835 x|\\udefc|\\u00e9|\\u1d6fc|\\ud835\\u0041|\\uD835\\uDEFC\"}"))
+	vOut(esc.Description)
 	bad := Parse([]byte("{\"description\": \"x\", }"))
 	vOut("bad:" + bad.Description)
 }
